@@ -51,7 +51,8 @@ type structReport struct {
 	LaunchForm  string   `json:"launch_form"` // counted | counter
 	Launches    string   `json:"launches"`    // symbolic count
 	Receives    string   `json:"receives"`
-	Channel     string   `json:"channel"`     // name of the completion channel (information only)
+	Channel     string   `json:"channel"`     // name of the completion channel / WaitGroup (information only)
+	Join        string   `json:"join"`        // channel | waitgroup:add-per-launch | waitgroup:add-total
 	WrittenCaptured []string `json:"written_captured"`
 	ReadCaptured    []string `json:"read_captured"`
 	ChanCaptured    []string `json:"channel_captured"`
@@ -381,9 +382,20 @@ func maskSum(x, y uint8) uint8 {
 
 type sendAn struct {
 	a      *analyser
-	ch     *ast.Object
-	defers uint8 // sends performed by deferred literals (mask), 1 = none
+	ch     *ast.Object // the completion object as the goroutine sees it (channel, or WaitGroup)
+	isWG   bool        // completion event = <ch>.Done() instead of a send on <ch>
+	defers uint8       // events performed by deferred literals / deferred Done (mask), 1 = none
 	ok     bool
+}
+
+// <obj>.<name>(..) on the given object
+func methodCallOn(e ast.Expr, obj *ast.Object, name string) bool {
+	c, ok := unparen(e).(*ast.CallExpr)
+	if !ok {
+		return false
+	}
+	sel, ok := c.Fun.(*ast.SelectorExpr)
+	return ok && sel.Sel.Name == name && identObj(sel.X) == obj && obj != nil
 }
 
 func (s *sendAn) exprMentionsChan(e ast.Node) bool {
@@ -417,8 +429,19 @@ func (s *sendAn) list(stmts []ast.Stmt, top bool) (uint8, uint8) {
 func (s *sendAn) stmt(st ast.Stmt, top bool) (uint8, uint8) {
 	switch x := st.(type) {
 	case *ast.SendStmt:
-		if identObj(x.Chan) == s.ch {
+		if !s.isWG && identObj(x.Chan) == s.ch {
 			return 2, 0
+		}
+		if s.exprMentionsChan(st) {
+			s.ok = false
+		}
+		return 1, 0
+	case *ast.ExprStmt:
+		if s.isWG && methodCallOn(x.X, s.ch, "Done") {
+			return 2, 0
+		}
+		if s.exprMentionsChan(st) {
+			s.ok = false
 		}
 		return 1, 0
 	case *ast.ReturnStmt:
@@ -482,6 +505,13 @@ func (s *sendAn) stmt(st ast.Stmt, top bool) (uint8, uint8) {
 		}
 		return fall, ret
 	case *ast.DeferStmt:
+		if s.isWG && methodCallOn(x.Call, s.ch, "Done") {
+			if !top {
+				s.ok = false // conditional defer
+			}
+			s.defers = maskSum(s.defers, 2)
+			return 1, 0
+		}
 		if lit, ok := x.Call.Fun.(*ast.FuncLit); ok {
 			f, r := s.list(lit.Body.List, false)
 			if (f|r) != 1 { // the deferred literal sends
@@ -701,109 +731,126 @@ func analyseStructure(path, fname string, wantRecv bool) (*structReport, error) 
 	}
 	s := sites[0]
 
-	// --- the completion channel: channel objects the goroutine sends on
-	sendChans := map[*ast.Object]bool{}
-	ast.Inspect(s.l.body, func(n ast.Node) bool {
-		if _, isLit := n.(*ast.FuncLit); isLit && n != ast.Node(s.l.lit) {
-			// sends inside nested literals are seen through the defer rule only
-		}
-		if sd, ok := n.(*ast.SendStmt); ok {
-			if o := identObj(sd.Chan); o != nil {
-				sendChans[o] = true
-			} else {
-				a.problem("send on a channel expression that is not a plain variable (%s)", a.text(sd.Chan))
-			}
-		}
-		return true
-	})
-	if len(sendChans) != 1 {
-		a.problem("the goroutine sends on %d channels (exactly one completion channel expected)", len(sendChans))
-		return rep, nil
-	}
-	var chIn *ast.Object
-	for o := range sendChans {
-		chIn = o
-	}
-	ch := a.starterChan(s.l, chIn)
-	if ch == nil {
-		a.problem("the completion channel of the goroutine is not bound to a variable of the starter")
-		return rep, nil
-	}
-	rep.Channel = ch.Name
-	if d, ok := a.defs[ch]; !ok || !isMakeChan(d) || a.assign[ch] != 1 {
-		a.problem("the completion channel is not a local made once with make(chan ..) in %s", fname)
-	}
-	sa := &sendAn{a: a, ch: chIn, defers: 1, ok: true}
-	fall, ret := sa.list(s.l.body.List, true)
-	exits := maskSum(fall|ret, sa.defers)
-	if !sa.ok || exits != 2 {
-		a.problem("the goroutine does not send on the completion channel exactly once on every path (sends per path: %s%s)",
-			map[uint8]string{1: "0", 2: "1", 3: "0 or 1", 4: ">=2", 5: "0 or >=2", 6: "1 or >=2", 7: "0, 1 or >=2"}[exits],
-			map[bool]string{true: "", false: "; channel used in a loop, a select, a call or a conditional defer"}[sa.ok])
-	}
-
-	// --- receives of the starter on that channel: exactly one, unconditional, in a top-level counted loop
 	type recvSite struct {
 		loop *ast.ForStmt
 	}
-	var recvs []recvSite
-	nRecvExprs := 0
-	ast.Inspect(a.fd.Body, func(n ast.Node) bool {
-		if _, isLit := n.(*ast.FuncLit); isLit {
-			return false
+	var ch *ast.Object
+	var join *ast.ForStmt
+	var jc counted
+	var receives lin
+	wg := a.waitGroupJoin(s.l, s.loop, s.lbody, s.idx)
+	if wg != nil {
+		// --- completion by sync.WaitGroup (second recognised mechanism)
+		ch = wg.obj
+		rep.Channel = wg.obj.Name
+		rep.Join = "waitgroup:" + wg.form
+		if len(rep.Problems) > 0 {
+			return rep, nil
 		}
-		if u, ok := n.(*ast.UnaryExpr); ok && u.Op == token.ARROW && identObj(u.X) == ch {
-			nRecvExprs++
-		}
-		if r, ok := n.(*ast.RangeStmt); ok && identObj(r.X) == ch {
-			nRecvExprs += 2
-		}
-		return true
-	})
-	isRecvStmt := func(st ast.Stmt) bool {
-		var e ast.Expr
-		switch x := st.(type) {
-		case *ast.ExprStmt:
-			e = x.X
-		case *ast.AssignStmt:
-			if len(x.Rhs) == 1 {
-				e = x.Rhs[0]
+	} else {
+		rep.Join = "channel"
+		// --- the completion channel: channel objects the goroutine sends on
+		sendChans := map[*ast.Object]bool{}
+		ast.Inspect(s.l.body, func(n ast.Node) bool {
+			if _, isLit := n.(*ast.FuncLit); isLit && n != ast.Node(s.l.lit) {
+				// sends inside nested literals are seen through the defer rule only
 			}
-		}
-		if e == nil {
-			return false
-		}
-		u, ok := unparen(e).(*ast.UnaryExpr)
-		return ok && u.Op == token.ARROW && identObj(u.X) == ch
-	}
-	for _, st := range a.fd.Body.List {
-		if f, ok := st.(*ast.ForStmt); ok && st != s.loop {
-			k := 0
-			for _, b := range f.Body.List {
-				if isRecvStmt(b) {
-					k++
+			if sd, ok := n.(*ast.SendStmt); ok {
+				if o := identObj(sd.Chan); o != nil {
+					sendChans[o] = true
+				} else {
+					a.problem("send on a channel expression that is not a plain variable (%s)", a.text(sd.Chan))
 				}
 			}
-			if k == 1 {
-				recvs = append(recvs, recvSite{f})
+			return true
+		})
+		if len(sendChans) != 1 {
+			a.problem("the goroutine sends on %d channels (exactly one completion channel expected)", len(sendChans))
+			return rep, nil
+		}
+		var chIn *ast.Object
+		for o := range sendChans {
+			chIn = o
+		}
+		ch = a.starterChan(s.l, chIn)
+		if ch == nil {
+			a.problem("the completion channel of the goroutine is not bound to a variable of the starter")
+			return rep, nil
+		}
+		rep.Channel = ch.Name
+		if d, ok := a.defs[ch]; !ok || !isMakeChan(d) || a.assign[ch] != 1 {
+			a.problem("the completion channel is not a local made once with make(chan ..) in %s", fname)
+		}
+		sa := &sendAn{a: a, ch: chIn, defers: 1, ok: true}
+		fall, ret := sa.list(s.l.body.List, true)
+		exits := maskSum(fall|ret, sa.defers)
+		if !sa.ok || exits != 2 {
+			a.problem("the goroutine does not send on the completion channel exactly once on every path (sends per path: %s%s)",
+				map[uint8]string{1: "0", 2: "1", 3: "0 or 1", 4: ">=2", 5: "0 or >=2", 6: "1 or >=2", 7: "0, 1 or >=2"}[exits],
+				map[bool]string{true: "", false: "; channel used in a loop, a select, a call or a conditional defer"}[sa.ok])
+		}
+
+		// --- receives of the starter on that channel: exactly one, unconditional, in a top-level counted loop
+		var recvs []recvSite
+		nRecvExprs := 0
+		ast.Inspect(a.fd.Body, func(n ast.Node) bool {
+			if _, isLit := n.(*ast.FuncLit); isLit {
+				return false
+			}
+			if u, ok := n.(*ast.UnaryExpr); ok && u.Op == token.ARROW && identObj(u.X) == ch {
+				nRecvExprs++
+			}
+			if r, ok := n.(*ast.RangeStmt); ok && identObj(r.X) == ch {
+				nRecvExprs += 2
+			}
+			return true
+		})
+		isRecvStmt := func(st ast.Stmt) bool {
+			var e ast.Expr
+			switch x := st.(type) {
+			case *ast.ExprStmt:
+				e = x.X
+			case *ast.AssignStmt:
+				if len(x.Rhs) == 1 {
+					e = x.Rhs[0]
+				}
+			}
+			if e == nil {
+				return false
+			}
+			u, ok := unparen(e).(*ast.UnaryExpr)
+			return ok && u.Op == token.ARROW && identObj(u.X) == ch
+		}
+		for _, st := range a.fd.Body.List {
+			if f, ok := st.(*ast.ForStmt); ok && st != s.loop {
+				k := 0
+				for _, b := range f.Body.List {
+					if isRecvStmt(b) {
+						k++
+					}
+				}
+				if k == 1 {
+					recvs = append(recvs, recvSite{f})
+				}
 			}
 		}
+		if nRecvExprs != 1 || len(recvs) != 1 {
+			a.problem("the starter does not receive from the completion channel in exactly one place, once per iteration of one top-level join loop (%d receive expressions, %d such loops)", nRecvExprs, len(recvs))
+			return rep, nil
+		}
+		join = recvs[0].loop
+		if hasBranch(join.Body.List) {
+			a.problem("the join loop contains break / continue / return / goto")
+		}
+		jc = a.countedLoop(join)
+		if !jc.ok {
+			a.problem("join loop: %s", jc.why)
+			return rep, nil
+		}
+		receives = linAdd(jc.hi, jc.lo, -1)
+		rep.Receives = receives.String()
+
 	}
-	if nRecvExprs != 1 || len(recvs) != 1 {
-		a.problem("the starter does not receive from the completion channel in exactly one place, once per iteration of one top-level join loop (%d receive expressions, %d such loops)", nRecvExprs, len(recvs))
-		return rep, nil
-	}
-	join := recvs[0].loop
-	if hasBranch(join.Body.List) {
-		a.problem("the join loop contains break / continue / return / goto")
-	}
-	jc := a.countedLoop(join)
-	if !jc.ok {
-		a.problem("join loop: %s", jc.why)
-		return rep, nil
-	}
-	receives := linAdd(jc.hi, jc.lo, -1)
-	rep.Receives = receives.String()
 
 	// --- launches
 	before, after := s.lbody.List[:s.idx], s.lbody.List[s.idx+1:]
@@ -823,6 +870,14 @@ func analyseStructure(path, fname string, wantRecv bool) (*structReport, error) 
 		}
 		launches = linAdd(lc.hi, lc.lo, -1)
 		rep.LaunchForm = "counted"
+		if wg != nil {
+			if wg.form == "add-per-launch" {
+				receives = launches // one Add(1) right before every go statement
+			} else {
+				receives = wg.total
+			}
+			rep.Receives = receives.String()
+		}
 		// the loop variable must reach the goroutine by value, exactly once, and the indices are [0, count)
 		byValue := 0
 		for _, g := range s.l.args {
@@ -868,6 +923,16 @@ func analyseStructure(path, fname string, wantRecv bool) (*structReport, error) 
 					})
 				}
 			}
+		}
+		if wg != nil {
+			if wg.form != "add-per-launch" {
+				a.problem("launches inside a range loop need one Add(1) next to every go statement")
+				return rep, nil
+			}
+			launches = lin{map[string]int{"one Add(1) per launched goroutine": 1}, 0}
+			receives = launches
+			rep.Receives = receives.String()
+			break
 		}
 		// counter: the join count is a local incremented exactly once, next to the launch
 		var counter *ast.Object
@@ -998,7 +1063,11 @@ func analyseStructure(path, fname string, wantRecv bool) (*structReport, error) 
 			return true
 		})
 		// the starter must not write captured variables while goroutines are running
-		for _, blk := range []*ast.BlockStmt{s.lbody, join.Body} {
+		blks := []*ast.BlockStmt{s.lbody}
+		if join != nil {
+			blks = append(blks, join.Body)
+		}
+		for _, blk := range blks {
 			for _, st := range blk.List {
 				if st == ast.Stmt(s.l.gs) {
 					continue
@@ -1047,4 +1116,235 @@ func analyseStructure(path, fname string, wantRecv bool) (*structReport, error) 
 	}
 	rep.Recognised = len(rep.Problems) == 0
 	return rep, nil
+}
+
+
+// ---------------------------------------------------------------- completion by sync.WaitGroup
+
+type wgJoin struct {
+	obj   *ast.Object // the WaitGroup local of the starter
+	form  string      // add-per-launch | add-total
+	total lin         // argument of the single Add(n) (add-total)
+}
+
+func (a *analyser) isWGTypeExpr(e ast.Expr) bool {
+	if e == nil {
+		return false
+	}
+	t := a.text(e)
+	return t == "sync.WaitGroup" || t == "*sync.WaitGroup"
+}
+
+// is o a local sync.WaitGroup (value or pointer) declared in the analysed function?
+func (a *analyser) isWGLocal(o *ast.Object) bool {
+	if o == nil || o.Kind != ast.Var {
+		return false
+	}
+	if vs, ok := o.Decl.(*ast.ValueSpec); ok && a.isWGTypeExpr(vs.Type) {
+		return true
+	}
+	if d, ok := a.defs[o]; ok && a.assign[o] <= 3 {
+		t := a.text(d)
+		return t == "sync.WaitGroup{}" || t == "&sync.WaitGroup{}" || t == "new(sync.WaitGroup)"
+	}
+	return false
+}
+
+// waitGroupJoin recognises the WaitGroup form of the join; nil when the started goroutine does not
+// call Done() on a WaitGroup at all (then the channel form is tried).  Problems are reported.
+func (a *analyser) waitGroupJoin(l *launch, loop ast.Stmt, lbody *ast.BlockStmt, goIdx int) *wgJoin {
+	// objects the goroutine calls .Done() on
+	doneOn := map[*ast.Object]bool{}
+	ast.Inspect(l.body, func(n ast.Node) bool {
+		if c, ok := n.(*ast.CallExpr); ok {
+			if sel, ok := c.Fun.(*ast.SelectorExpr); ok && sel.Sel.Name == "Done" && len(c.Args) == 0 {
+				if o := identObj(sel.X); o != nil {
+					doneOn[o] = true
+				}
+			}
+		}
+		return true
+	})
+	var inner, outer *ast.Object
+	for o := range doneOn {
+		cand := o
+		// a parameter of the started function bound to &wg / wg
+		for i, p := range l.params {
+			if p != nil && p == o && i < len(l.args) {
+				arg := unparen(l.args[i])
+				if u, ok := arg.(*ast.UnaryExpr); ok && u.Op == token.AND {
+					arg = unparen(u.X)
+				}
+				cand = identObj(arg)
+			}
+		}
+		if a.isWGLocal(cand) {
+			if outer != nil {
+				a.problem("the goroutine calls Done() on more than one WaitGroup")
+				return &wgJoin{obj: cand}
+			}
+			inner, outer = o, cand
+		}
+	}
+	if outer == nil {
+		return nil
+	}
+	w := &wgJoin{obj: outer}
+	// --- the WaitGroup must not escape: only Add / Done / Wait are called on it; &wg / wg may be an
+	// argument of the go call (the started function then only calls Done on its parameter)
+	goArgs := map[ast.Expr]bool{}
+	for _, g := range l.gs.Call.Args {
+		goArgs[g] = true
+	}
+	var adds []*ast.CallExpr
+	waits, escapes := 0, 0
+	var visit func(n ast.Node, parent ast.Node, grand ast.Node)
+	visit = func(n ast.Node, parent ast.Node, grand ast.Node) {}
+	var stack []ast.Node
+	ast.Inspect(a.fd.Body, func(n ast.Node) bool {
+		if n == nil {
+			stack = stack[:len(stack)-1]
+			return true
+		}
+		if id, ok := n.(*ast.Ident); ok && id.Obj == outer && len(stack) > 0 {
+			parent := stack[len(stack)-1]
+			okUse := false
+			if sel, ok := parent.(*ast.SelectorExpr); ok && sel.X == ast.Expr(id) && len(stack) > 1 {
+				if call, ok := stack[len(stack)-2].(*ast.CallExpr); ok && call.Fun == ast.Expr(sel) {
+					switch sel.Sel.Name {
+					case "Add":
+						adds = append(adds, call)
+						okUse = true
+					case "Wait":
+						waits++
+						okUse = true
+					case "Done":
+						okUse = true
+					}
+				}
+			}
+			if u, ok := parent.(*ast.UnaryExpr); ok && u.Op == token.AND && goArgs[ast.Expr(u)] {
+				okUse = true
+			}
+			if goArgs[ast.Expr(id)] {
+				okUse = true
+			}
+			if _, isDecl := parent.(*ast.ValueSpec); isDecl {
+				okUse = true
+			}
+			if as, isAs := parent.(*ast.AssignStmt); isAs && as.Tok == token.DEFINE {
+				okUse = true
+			}
+			if !okUse {
+				escapes++
+			}
+		}
+		stack = append(stack, n)
+		return true
+	})
+	_ = visit
+	if escapes > 0 {
+		a.problem("the WaitGroup escapes (it is used other than by Add / Done / Wait calls or as the &wg argument of the go call)")
+	}
+	// inside a named started function the parameter may only be used for Done()
+	if l.lit == nil && inner != nil {
+		bad := 0
+		var st2 []ast.Node
+		ast.Inspect(l.body, func(n ast.Node) bool {
+			if n == nil {
+				st2 = st2[:len(st2)-1]
+				return true
+			}
+			if id, ok := n.(*ast.Ident); ok && id.Obj == inner {
+				okUse := false
+				if len(st2) > 1 {
+					if sel, ok := st2[len(st2)-1].(*ast.SelectorExpr); ok && sel.Sel.Name == "Done" {
+						if call, ok := st2[len(st2)-2].(*ast.CallExpr); ok && call.Fun == ast.Expr(sel) {
+							okUse = true
+						}
+					}
+				}
+				if !okUse {
+					bad++
+				}
+			}
+			st2 = append(st2, n)
+			return true
+		})
+		if bad > 0 {
+			a.problem("the started function uses its WaitGroup parameter for more than Done()")
+		}
+	}
+	// --- Done() exactly once on every path of the goroutine
+	sa := &sendAn{a: a, ch: inner, isWG: true, defers: 1, ok: true}
+	fall, ret := sa.list(l.body.List, true)
+	exits := maskSum(fall|ret, sa.defers)
+	if !sa.ok || exits != 2 {
+		a.problem("the goroutine does not call Done() on the WaitGroup exactly once on every path (calls per path: %s%s)",
+			map[uint8]string{1: "0", 2: "1", 3: "0 or 1", 4: ">=2", 5: "0 or >=2", 6: "1 or >=2", 7: "0, 1 or >=2"}[exits],
+			map[bool]string{true: "", false: "; WaitGroup used in a loop, a nested call or a conditional defer"}[sa.ok])
+	}
+	// --- Add: one Add(1) before every go statement (same loop body, no branch between), or one Add(n) before the loop
+	top := a.fd.Body.List
+	loopIdx := inBlockTop(top, loop)
+	isAddStmt := func(st ast.Stmt) *ast.CallExpr {
+		if es, ok := st.(*ast.ExprStmt); ok && methodCallOn(es.X, outer, "Add") {
+			return unparen(es.X).(*ast.CallExpr)
+		}
+		return nil
+	}
+	if len(adds) != 1 || len(adds[0].Args) != 1 {
+		a.problem("%d Add calls on the WaitGroup (exactly one Add site expected: Add(1) before every go statement, or one Add(n) before the launch loop)", len(adds))
+	} else {
+		found := false
+		for k, st := range lbody.List {
+			if c := isAddStmt(st); c == adds[0] {
+				found = true
+				if k > goIdx {
+					a.problem("Add is executed AFTER the go statement it accounts for (Wait may return before the goroutine is counted)")
+				} else if hasBranch(lbody.List[k:goIdx+1]) {
+					a.problem("a branch statement between Add(1) and the go statement")
+				}
+				if lv := a.linOf(c.Args[0], 0); len(lv.t) != 0 || lv.c != 1 {
+					a.problem("Add(%s) inside the launch loop is not Add(1)", a.text(c.Args[0]))
+				}
+				w.form = "add-per-launch"
+			}
+		}
+		for k, st := range top {
+			if c := isAddStmt(st); c == adds[0] {
+				found = true
+				if k > loopIdx {
+					a.problem("Add(n) is executed after the launch loop")
+				}
+				w.form = "add-total"
+				w.total = a.linOf(c.Args[0], 0)
+			}
+		}
+		if !found {
+			a.problem("the Add call is neither a top-level statement of the launch loop body nor a top-level statement before the loop (conditional / nested / inside the goroutine)")
+		}
+	}
+	// --- Wait: exactly one, a top-level statement after the launch loop, reached on every path
+	if waits != 1 {
+		a.problem("%d Wait calls on the WaitGroup (exactly one expected, after the launch loop)", waits)
+	} else {
+		wIdx := -1
+		for k, st := range top {
+			if es, ok := st.(*ast.ExprStmt); ok && methodCallOn(es.X, outer, "Wait") {
+				wIdx = k
+			}
+		}
+		switch {
+		case wIdx < 0:
+			a.problem("Wait() is not a top-level statement of the function (inside the launch loop, a branch or a goroutine)")
+		case wIdx < loopIdx:
+			a.problem("Wait() is executed before the launch loop")
+		default:
+			if hasBranch(top[loopIdx+1 : wIdx]) {
+				a.problem("a return / branch between the launch loop and Wait(): Wait is not reached on every path")
+			}
+		}
+	}
+	return w
 }
